@@ -178,6 +178,9 @@ DEFAULT_PROFILE = {
     "p_save_tuner": 0.05,
     "p_payload": 0.0,
     "p_rejects": 0.0,
+    "p_allow_dup": 0.08,
+    "p_restrict": 0.12,
+    "p_nan_metric": 0.0,
 }
 
 
@@ -332,6 +335,29 @@ def gen_scenario(root, profile=None):
             # independent GPs live on rung levels only (documented for HyperTune): data and pending at rung levels
             sched["searcher_data"] = "rungs"
             sched["register_pending_myopic"] = False
+    RANDOM_SEARCHER_KINDS = ("fifo_random", "hb_stopping", "hb_promotion", "hb_pasha", "hb_cost_promotion", "sync_hb", "sync_hb_custom", "median")
+    if kind in RANDOM_SEARCHER_KINDS and r.chance(p["p_allow_dup"]):
+        sched["allow_duplicates"] = True
+    if kind in RANDOM_SEARCHER_KINDS + ("fifo_bo", "hb_stopping_bo", "hb_promotion_bo") and r.chance(p["p_restrict"]):
+        # restrict_configurations: a subset of a finite space (as for tabulated benchmarks)
+        vals = []
+        ok = True
+        for name, spec in space:
+            if spec[0] == "const" or name == MAXRES_ATTR:
+                continue
+            if spec[0] in ("choice", "ordinal"):
+                vals.append((name, list(spec[1])))
+            elif spec[0] == "randint" and spec[2] - spec[1] <= 8:
+                vals.append((name, list(range(spec[1], spec[2] + 1))))
+            else:
+                ok = False
+        if ok and vals:
+            import itertools
+
+            combos = [dict(zip([n for n, _ in vals], c)) for c in itertools.product(*[v for _, v in vals])]
+            if 2 <= len(combos) <= 80:
+                keep = [c for c in combos if r.chance(0.7)] or combos[:1]
+                sched["restrict_configurations"] = keep
     scen["scheduler"] = sched
     # ---- job script -----------------------------------------------------
     script = {
@@ -352,6 +378,12 @@ def gen_scenario(root, profile=None):
         script["extra"] = r.sample(["str", "nan", "int"], r.randint(1, 3))
     if r.chance(p["p_noise"]):
         script["noise"] = r.randint(1, 3)
+    if kind in ("fifo_random", "fifo_grid", "fifo_bo") and r.chance(p["p_nan_metric"]):
+        script["nan_metric"] = r.choice([0.15, 0.4])  # some trials complete with a NaN / inf metric value
+    if kind in ("sync_hb", "sync_hb_custom") and r.chance(p.get("p_nan_metric_sync", 0.0)):
+        # diverging configurations: the script reports NaN at every level (ranked last by synchronous Hyperband)
+        script["nan_metric"] = r.choice([0.3, 0.6])
+        script["nan_all_levels"] = True
     if r.chance(p["p_payload"]):
         script["payload"] = r.sample(["str", "nested", "numpy", "inf"], r.randint(1, 4))
     if r.chance(p["p_rejects"]):
@@ -377,6 +409,9 @@ def gen_scenario(root, profile=None):
     if "max_wallclock_time" not in stop and "max_num_trials_started" not in stop:
         # safety net so that every run terminates in bounded simulated time
         stop["max_wallclock_time"] = 150.0 * script["pace"]["mean"]
+    if "max_num_trials_started" not in stop:
+        # bound on the size of a run (sizes are deliberately small, see DESIGN 3.4)
+        stop["max_num_trials_started"] = 25 if kind == "moasha" else 14 if kind in GP_KINDS else 45
     if sched.get("early_ckpt_removal") and "max_wallclock_time" not in stop:
         # the early-removal callback documents that it needs max_wallclock_time
         stop["max_wallclock_time"] = 150.0 * script["pace"]["mean"]
@@ -414,6 +449,10 @@ def gen_scenario(root, profile=None):
             if lvl != "first" and lvl > max_t:
                 lvl = max_t
             faults.append({"kind": fk, "trial": r.randint(0, 7), "run": r.choice([None, None, 0, 1]), "level": lvl})
+    if p["world"] == "local":
+        # an operator cannot make a LocalBackend job "Stopped" other than through the back-end's own marker file,
+        # which then outlives a later resume: F2 (external stop) is simulated in W-MEM only
+        faults = [f for f in faults if f["kind"] != "extstop"]
     scen["faults"] = faults
     if r.chance(p["p_noreport"]):
         script["noreport_exit0"] = True
@@ -469,12 +508,20 @@ def midpoint_free_points(scen, space):
     return pts
 
 
+def extra_search_options(sched, so):
+    if sched.get("allow_duplicates"):
+        so["allow_duplicates"] = True
+    if sched.get("restrict_configurations"):
+        so["restrict_configurations"] = copy.deepcopy(sched["restrict_configurations"])
+    return so
+
+
 def gp_search_options(sched):
     so = {"debug_log": False, "num_init_random": sched.get("num_init_random", 3)}
     so.update(sched.get("gp_opts", {}))
     if sched.get("gp_model"):
         so["model"] = sched["gp_model"]
-    return so
+    return extra_search_options(sched, so)
 
 
 def build_scheduler(scen):
@@ -494,7 +541,7 @@ def build_scheduler(scen):
 
     if kind in ("fifo_random", "fifo_grid", "fifo_bo"):
         searcher = {"fifo_random": "random", "fifo_grid": "grid", "fifo_bo": "bayesopt"}[kind]
-        so = gp_search_options(s) if kind == "fifo_bo" else {"debug_log": False}
+        so = gp_search_options(s) if kind == "fifo_bo" else extra_search_options(s, {"debug_log": False}) if kind == "fifo_random" else {"debug_log": False}
         sched = FIFOScheduler(space, searcher=searcher, search_options=so, **common)
     elif kind == "rea":
         from syne_tune.optimizer.schedulers.searchers.regularized_evolution import RegularizedEvolution
@@ -541,7 +588,7 @@ def build_scheduler(scen):
             kw["search_options"] = gp_search_options(s)
         else:
             kw["searcher"] = "random"
-            kw["search_options"] = {"debug_log": False}
+            kw["search_options"] = extra_search_options(s, {"debug_log": False})
         sched = HyperbandScheduler(space, **kw)
     elif kind in ("sync_hb", "sync_hb_bo", "dehb"):
         from syne_tune.optimizer.schedulers.synchronous import (
@@ -560,7 +607,7 @@ def build_scheduler(scen):
             kw["searcher"] = "bayesopt"
             kw["search_options"] = gp_search_options(s)
         else:
-            kw["search_options"] = {"debug_log": False}
+            kw["search_options"] = extra_search_options(s, {"debug_log": False}) if kind == "sync_hb" else {"debug_log": False}
         cls = GeometricDifferentialEvolutionHyperbandScheduler if kind == "dehb" else SynchronousGeometricHyperbandScheduler
         if kind == "dehb":
             kw.pop("points_to_evaluate", None)
@@ -570,7 +617,7 @@ def build_scheduler(scen):
         from syne_tune.optimizer.schedulers.synchronous import SynchronousHyperbandScheduler
 
         kw = dict(common)
-        kw.update(resource_attr=RESOURCE_ATTR, search_options={"debug_log": False})
+        kw.update(resource_attr=RESOURCE_ATTR, search_options=extra_search_options(s, {"debug_log": False}))
         if s["use_maxres"]:
             kw["max_resource_attr"] = MAXRES_ATTR
         else:
@@ -602,7 +649,7 @@ def build_scheduler(scen):
     elif kind == "median":
         from syne_tune.optimizer.schedulers.median_stopping_rule import MedianStoppingRule
 
-        inner = FIFOScheduler(space, searcher="random", search_options={"debug_log": False}, **common)
+        inner = FIFOScheduler(space, searcher="random", search_options=extra_search_options(s, {"debug_log": False}), **common)
         sched = MedianStoppingRule(inner, resource_attr=RESOURCE_ATTR, running_average=s["running_average"],
                                    grace_time=s["grace_time"], grace_population=s["grace_population"],
                                    rank_cutoff=s["rank_cutoff"])
